@@ -2,10 +2,13 @@ package worlds
 
 import (
 	"fmt"
+	"sync"
+	"time"
 
 	"github.com/MinterTeam/minter-go-node/coreV2/types"
 
 	"verif/lab"
+	"verif/vdb"
 )
 
 // EnvSpec is one block-environment alternative.
@@ -14,6 +17,9 @@ type EnvSpec struct {
 	Env  lab.Env
 	// Dyn, when set, computes the environment from the node just before BeginBlock.
 	Dyn func(n *lab.Node) lab.Env
+	// FF > 0: a fast-forward macro step — FF empty blocks (all validators present, +5 s each)
+	// are executed before the block itself.
+	FF int
 }
 
 // World is a closed driver: genesis, constructor parameters, menus.
@@ -29,6 +35,17 @@ type World struct {
 	// Universe: accounts, coins the world can touch (for probes and reports).
 	Accounts []*Key
 	Notes    string
+
+	// Warmup > 0: every history starts from a checkpoint taken after Warmup empty blocks
+	// (executed once per world object; each execution reopens a node over a copy of the
+	// checkpoint's databases). WarmupEnv optionally chooses the environment of warm-up block i.
+	Warmup    int
+	WarmupEnv func(n *lab.Node, i int) lab.Env
+	CkOnce    sync.Once
+	CkSet     *vdb.Set
+	CkHeight  int64
+	CkTime    time.Time
+	CkFault   *lab.Fault
 }
 
 var registry = map[string]func() *World{}
